@@ -29,6 +29,13 @@ def multi_defect_configs():
     out["scopes"] = {"services": {n: {"constructor": "N", "arguments": ["@ctx1", "@ctx2"], "scope": "shared"} for n in ("a", "b", "c")}}
     out["scopes"]["services"].update({"ctx1": {"constructor": "N", "scope": "contextual"}, "ctx2": {"constructor": "N", "scope": "contextual"}})
     out["tokens"] = {"parameters": {"a": "%f(1)%", "b": "%g(2)%", "c": "%%%", "d": "%1x%"}}
+    # keys that are equal up to case / prefixes of each other: a coarser sort comparator would tie them
+    out["case-keys"] = {"meta": {"pkg": "gen", "imports": {"fx": "probe/fx", "FX": "probe/fx2/pkg", "Fx": "probe/deep/fx"}, "functions": {"fn": "fx.Fn1", "Fn": "fx.FnInt", "FN": "fx.Fn1"}},
+                        "parameters": {"host": 1, "Host": 2, "HOST": 3, "hosT": "%host%%Host%", "a": "x", "A": "y", "a.b": 1, "a-b": 2, "a_b": 3},
+                        "services": {n: {"constructor": "fx.NewA", "arguments": [n], "fields": {"F1": 1, "F2": 2}, "tags": ["t", "T"], "getter": "Get" + n.replace(".", "").replace("-", "").replace("_", "U")}
+                                     for n in ("db", "DB", "Db", "dB", "a.b", "a-b", "a_b", "ab")}}
+    out["case-keys-invalid"] = {"parameters": {"Port": [1], "port": [2], "PORT": [3], "x y": 1, "X Y": 2},
+                                "services": {"svc": {"constructor": "1x"}, "SVC": {"constructor": "2x"}, "Svc": {"constructor": "3x"}}}
     out["aliases"] = {"meta": {"pkg": "gen", "imports": {"exp": "exp1/my", "exp1": "other/p", "ex": "e/x", "a": "x/y", "a.b": "std"}},
                       "services": {"s1": {"constructor": "exp1/ossuary/pkg.New"}, "s2": {"constructor": "exp/os.New"}, "s3": {"constructor": "a.b/c.New"}, "s4": {"value": "ex/v.V"}, "s5": {"type": "*exp12/t.T"}}}
     return out
@@ -68,7 +75,22 @@ def run(ctx, runs=None):
         c.setdefault("meta", {})["pkg"] = "gen"
         cfgs["rand%03d" % i] = c
     violations, nontriv = [], set()
-    dist = {"configs": 0, "runs": 0, "permutation_runs": 0, "invalid_multi_defect": 0, "valid": 0}
+    dist = {"configs": 0, "runs": 0, "permutation_runs": 0, "invalid_multi_defect": 0, "valid": 0, "mapkeys_cases": 0}
+    corr_fail = []
+    # sorted-key helper: model vs implementation on key sets with case collisions and prefix relations, each asked 3 times
+    pool = ["a", "A", "ab", "aB", "Ab", "AB", "a.b", "a-b", "a_b", "b", "B", "host", "Host", "HOST", "é", "É", "z", "Z", "", "a0", "a/"]
+    for _ in range(300 if ctx.quick else 5000):
+        ks = ctx.rng.sample(pool, ctx.rng.randint(0, 8))
+        req = {"op": "mapkeys", "keys": ks}
+        outs = [ctx.impl.ask(req) for _ in range(3)]
+        dist["mapkeys_cases"] += 1
+        if len({core.canon(o) for o in outs}) > 1:
+            violations.append({"sig": "nondeterministic-key-order", "what": "maps.Keys returns different orders for the same key set %r: %r" % (ks, [o.get("ok") for o in outs]), "scenario": {"name": "mapkeys", "keys": ks}})
+            break
+        if ctx.have_model:
+            m = ctx.model.ask(req)
+            if core.canon(m.get("ok")) != core.canon(outs[0].get("ok")) and len(corr_fail) < 5:
+                corr_fail.append({"op": "mapkeys", "req": req, "impl": outs[0], "model": m})
     base = ctx.scratch()
     for name, cfg in cfgs.items():
         dist["configs"] += 1
@@ -105,7 +127,7 @@ def run(ctx, runs=None):
                     break
     return {"evaluations": dist["runs"] + dist["permutation_runs"], "distinct_nontrivial": len(nontriv) + dist["invalid_multi_defect"],
             "rule": "multi-defect configurations of every class + the C10 defect classes + seeded random (mutated) configurations; each run %d times in fresh processes with varying cwd and environment (sha256 of stdout and -o compared); accepted ones additionally under random key permutations of all mappings; distinct = configurations" % runs,
-            "samples": [{"name": n, "cfg": gen.yaml_doc(c)[:300]} for n, c in list(cfgs.items())[:3]], "distribution": dist, "violations": violations, "corr_fail": []}
+            "samples": [{"name": n, "cfg": gen.yaml_doc(c)[:300]} for n, c in list(cfgs.items())[:3]], "distribution": dist, "violations": violations, "corr_fail": corr_fail}
 
 
 def search(ctx):
